@@ -60,6 +60,7 @@ PROP = {'gen': ['base64'],
                   'external deserialisers as oracles (rasterize, serde derive); the real answers are supplied per case',
                   'the C10 development, through Props/C10.v (C10_total) and the vtree constructors only; the node structure of view_tree is tied to the code by the layout-skeleton comparison of the run, its node contents are arbitrary',
                   'rasterisation of glyphs is outside the theorems: run and judged for stand-alone glyphs outside the two known-finding classes',
+                  'util::source_boundaries: integer constants of the anchored sources harvested at run time for sizes / channels / dimensions',
                   HARNESS],
  'assumptions': ['attribute sets are an underline style (0..5) plus flags: after the repair of the compound assignment operators these are all values of FaceAttrs reachable through its public API',
                  'an image in memory has h*w pixels of 4 bytes with 4*h*w < 2^64; 64-bit usize',
